@@ -1,4 +1,5 @@
 import MemVerif.Model.ListInv
+import MemVerif.Lemmas.OrdListBase
 /-! Correctness of the ordered free list's position search (`find_pos`, `find_pos_interval`). Statements are used by
 `MemVerif.Props.C16` and `MemVerif.Props.C04`. -/
 namespace MemVerif.Model
@@ -10,29 +11,31 @@ theorem findPos_valid (l : OrdList) (hI : l.Inv) (dbl : Bool) (m : Nat) (hm : m 
     (hmB : m + l.ns ≤ l.B ∨ l.E + 8 ≤ m) (hm0 : 0 < m) :
     ∃ i, i ≤ l.nodes.length ∧ l.findPos dbl m = .pos i (i + 1) ∧
       (∀ j, j < i → l.nodes.getD j 0 < m) ∧ (∀ j, i ≤ j → j < l.nodes.length → m < l.nodes.getD j 0) := by
-  sorry
+  have _ := hm0  -- (the search itself never needs `0 < m`)
+  obtain ⟨i, h, hA⟩ := findPos_valid' l hI dbl m hm hmB
+  exact ⟨i, hA.1, h, hA.2.1, hA.2.2⟩
 
 /-- **Double release is stopped**: with double-free checking on, releasing an address that is already on the list never
 yields a position: it is reported, or the search ends in the internal unreachable path (which aborts the program). -/
 theorem findPos_double (l : OrdList) (hI : l.Inv) (m : Nat) (hm : m ∈ l.nodes) :
     l.findPos true m = .report ∨ l.findPos true m = .unreachable := by
-  sorry
+  exact findPos_double' l hI m hm
 
 /-- `deallocate` of a valid node inserts it in address order, updates the cursor, and keeps the invariant. -/
 theorem deallocate_valid (cfg : Cfg) (l : OrdList) (hI : l.Inv) (m : Nat) (hm : m ∉ l.nodes)
     (hmB : m + l.ns ≤ l.B ∨ l.E + 8 ≤ m) (hm0 : 0 < m) :
     ∃ l', l.deallocate cfg m = .ok l' ∧ l'.nodes = insertAsc m l.nodes ∧ l'.cap = l.cap + 1 ∧ l'.ld = m ∧ l'.Inv := by
-  sorry
+  exact deallocate_valid' cfg l hI m hm hmB hm0
 
 /-- `allocate()` removes the first (lowest) node and keeps the invariant. -/
 theorem allocate_inv (l : OrdList) (hI : l.Inv) (x : Nat) (xs : List Nat) (hn : l.nodes = x :: xs) :
     ∃ l', l.allocate = some (l', x) ∧ l'.nodes = xs ∧ l'.cap + 1 = l.cap ∧ l'.Inv := by
-  sorry
+  exact allocate_inv' l hI x xs hn
 
 /-- **Release restores** (C04): allocating a node and releasing it again gives back exactly the same node sequence. -/
 theorem allocate_deallocate_restores (cfg : Cfg) (l : OrdList) (hI : l.Inv) (l1 : OrdList) (x : Nat)
     (h : l.allocate = some (l1, x)) :
     ∃ l2, l1.deallocate cfg x = .ok l2 ∧ l2.nodes = l.nodes ∧ l2.cap = l.cap := by
-  sorry
+  exact allocate_deallocate_restores' cfg l hI l1 x h
 
 end MemVerif.Model
